@@ -158,8 +158,13 @@ def step (_ : Unit) (l : Line) : Unit × String :=
       match bitsArg f l "x", bitsArg f l "y", bitsArg f l "z" with
       | some x, some y, some z =>
         let r := f.fma x y z
-        -- a finite computation that overflows is a range error: whether it is a constant expression is unspecified
-        if (f.isFinite x && f.isFinite y && f.isFinite z) && (!f.isFinite r || !f.isFinite (f.mul x y)) then unspecified
+        let t := Model.fmaTwoStep f x y z
+        let anyNaN := f.isNaN x || f.isNaN y || f.isNaN z
+        -- [expr.pre]/4: a result that is not mathematically defined (inf·0, inf−inf) or not representable (overflow of a
+        -- finite computation, in either the fused or the two-step evaluation) is undefined, hence no constant expression
+        let invalid := !anyNaN && (f.isNaN r || f.isNaN t)
+        let overflow := (f.isFinite x && f.isFinite y && f.isFinite z) && (!f.isFinite r || !f.isFinite (f.mul x y) || !f.isFinite t)
+        if invalid || overflow then unspecified
         else
           let s := fmtF f r
           out3 (fmtF f (Model.fmaTwoStep f x y z)) s s
